@@ -159,11 +159,29 @@ T('c11-strings', 'A ::= SEQUENCE { n NumericString (SIZE(1..2)), p PrintableStri
 T('c11-ext', 'A ::= SEQUENCE { a INTEGER (0..7, ...), s IA5String (SIZE(1, ...)), '
   'l SEQUENCE (SIZE(1..2, ...)) OF INTEGER (0..1) }', feats={'constraint', 'ext'})
 
+T('c12-choice-ext', 'A ::= SEQUENCE { d CHOICE { u INTEGER (0..3), ..., x B, y SEQUENCE OF B }, k INTEGER (0..7) }\n'
+  'B ::= SEQUENCE { m INTEGER (0..300), e E OPTIONAL }\nE ::= ENUMERATED { one, two }',
+  feats={'constraint', 'path', 'ext'})
+# members with the same identifier and the same referenced type in different contexts (the compiler
+# caches compiled referenced types per (module, type, member name))
+T('shared-range', 'A ::= SEQUENCE { n Narrow, l Listed }\nNarrow ::= SEQUENCE { level Level (10..20) }\n'
+  'Listed ::= SEQUENCE { level Level }\nLevel ::= INTEGER (0..100)', feats={'combo', 'ref', 'constraint'}, tags='')
+T('shared-size', 'A ::= SEQUENCE { n Fixed, l Free }\nFixed ::= SEQUENCE { data T (SIZE (2)) }\n'
+  'Free ::= SEQUENCE { data T }\nT ::= OCTET STRING (SIZE (0..3))', feats={'combo', 'ref', 'constraint'}, tags='')
 T('c12-paths', 'A ::= SEQUENCE { a INTEGER (0..7), b SEQUENCE (SIZE(0..2)) OF B, c CHOICE { p INTEGER (0..3), q E }, ..., '
   '[[ g SEQUENCE OF CHOICE { r B, s BOOLEAN } ]] }\nB ::= SEQUENCE { x INTEGER (0..300), e E OPTIONAL }\n'
   'E ::= ENUMERATED { one, two }', feats={'constraint', 'path'})
 T('c13-enum-default', 'A ::= SEQUENCE { e ENUMERATED { x(3), y(7), z(9) } DEFAULT y, f E DEFAULT b, n INTEGER (0..7) }\n'
   'E ::= ENUMERATED { a, b, ..., c }', feats={'enum', 'opt'})
+T('defaults-by-ref', 'A ::= SEQUENCE { b B DEFAULT TRUE, f B DEFAULT FALSE, i I DEFAULT 5, e E DEFAULT two, '
+  'o O DEFAULT \'0102\'H, bs BS DEFAULT { one }, z INTEGER (0..7) }\nB ::= BOOLEAN\nI ::= INTEGER (0..20)\n'
+  'E ::= ENUMERATED { one, two }\nO ::= OCTET STRING (SIZE(0..2))\nBS ::= BIT STRING { one(1), three(3) }',
+  feats={'combo', 'ref', 'opt'})
+T('defaults-by-ref-small', 'A ::= SEQUENCE { b B DEFAULT TRUE, f B DEFAULT FALSE, e E DEFAULT two }\nB ::= BOOLEAN\n'
+  'E ::= ENUMERATED { one, two }', feats={'ref', 'opt'})
+T('components-of-chain', 'Gamma ::= SEQUENCE { g BOOLEAN, h INTEGER (0..7) OPTIONAL }\n'
+  'Beta ::= SEQUENCE { COMPONENTS OF Gamma, b INTEGER (0..3) }\n'
+  'A ::= SEQUENCE { a BOOLEAN, COMPONENTS OF Beta, z NULL }', feats={'combo'})
 T('combo-default-shared', 'A ::= SEQUENCE { lo Low, hi High }\n'
   'Low ::= SEQUENCE { id INTEGER (0..7), level Level DEFAULT 1 }\n'
   'High ::= SEQUENCE { id INTEGER (0..7), level Level DEFAULT 9 }\nLevel ::= INTEGER (0..15)',
